@@ -142,6 +142,14 @@ type tickModel struct {
 	once    bool
 	fired   bool
 	stopped bool
+	created int64 // clock value when the timer was made
+}
+
+// Deferrable: a one-shot timer with a positive duration for which no model time
+// has passed since it was created cannot be due yet; a select prefers any other
+// ready case over it.
+func (m *tickModel) Deferrable() bool {
+	return m.once && !m.fired && m.d > 0 && m.created == clock
 }
 
 func (m *tickModel) Ready() bool { return !m.stopped && !(m.once && m.fired) }
@@ -189,7 +197,7 @@ func TickerReset(t *time.Ticker, d time.Duration) {
 
 //verif:stub time.NewTimer
 func TimeNewTimer(d time.Duration) *time.Timer {
-	m := &tickModel{d: d, once: true}
+	m := &tickModel{d: d, once: true, created: clock}
 	t := &time.Timer{C: NewChanTime(m)}
 	timerModels[t] = m
 	return t
@@ -219,7 +227,7 @@ func TimerReset(t *time.Timer, d time.Duration) bool {
 
 //verif:stub time.After
 func TimeAfterChan(d time.Duration) <-chan time.Time {
-	return NewChanTime(&tickModel{d: d, once: true})
+	return NewChanTime(&tickModel{d: d, once: true, created: clock})
 }
 
 //verif:stub time.AfterFunc
